@@ -83,6 +83,8 @@ class Program:
         self._const_init = {}
         global CURRENT
         CURRENT = self
+        PROGRAMS.insert(0, self)
+        del PROGRAMS[4:]
 
     def body(self, key):
         return self.bodies.get(key)
@@ -115,6 +117,7 @@ class Program:
         return [f for f in self.formats if f["file"] == file and f["line"] == line]
 
 
+PROGRAMS = []  # recently loaded programs, newest first
 CURRENT = None  # the Program loaded last (named-constant lookup in rules.common.fold)
 
 
